@@ -209,6 +209,7 @@ def format_num(
         val = val * 100
 
     if (
+        val == 0 or
         (fixed_point_range[0] is not None and abs(val) < fixed_point_range[0]) or
         (fixed_point_range[1] is not None and abs(val) >= fixed_point_range[1])
     ):
